@@ -520,8 +520,11 @@ pub fn exec_event(w: &mut WorldRt, ev: &Event) -> String {
             #[cfg(not(verif_nostd))]
             match catch(move || std::process::Termination::report(u)) {
                 Caught::Ok(code) => {
-                    let failure = format!("{code:?}") != format!("{:?}", std::process::ExitCode::SUCCESS);
-                    format!("exit\t{}", failure as u8)
+                    // exactly SUCCESS or exactly FAILURE; any other exit code is printed as it is
+                    let c = format!("{code:?}");
+                    if c == format!("{:?}", std::process::ExitCode::SUCCESS) { "exit\t0".into() }
+                    else if c == format!("{:?}", std::process::ExitCode::FAILURE) { "exit\t1".into() }
+                    else { format!("exit\tother:{}", c.replace(' ', "")) }
                 }
                 Caught::User => "teardown\tuser?".into(),
                 Caught::Msg(m) => format!("teardown\tpanic\t{}", esc(&m)),
